@@ -296,7 +296,7 @@ def step (x : Sess) (toks : List String) : Step :=
       -- every handle is detached/dropped and every arena value dropped: the memory is released exactly once
       let um := if x.arenas.isEmpty then 0 else 1
       let x := { x with fs := fs, handles := [], arenas := [], closed := true, fpre := if x.removeOnDrop then #[] else x.fpre }
-      { sess := some x, out := s!"r=ok um={um} {fileStr x.whole}" }
+      { sess := some x, out := s!"r=ok um={um} mp=0 {fileStr x.whole}" }
   | ["close_last", h] =>
     -- every other handle detached, every arena value dropped, then the owned handle `h` dropped as the last owner
     if !x.opts.file then { sess := some x, out := "bad-op" }
@@ -313,7 +313,7 @@ def step (x : Sess) (toks : List String) : Step :=
             | .ok x2 =>
               let fs := if x2.removeOnDrop then none else x2.file
               let x3 := { x2 with fs := fs, handles := [], arenas := [], closed := true, fpre := if x2.removeOnDrop then #[] else x2.fpre }
-              { sess := some x3, out := s!"r=ok um={x3.released - x.released} {fileStr x3.whole}" }
+              { sess := some x3, out := s!"r=ok um={x3.released - x.released} mp=0 {fileStr x3.whole}" }
         | none => { sess := some x, out := "r=nohandle" }
   | ["flush"] => simple x "r=ok"
   | ["filehash"] => { sess := some x, out := s!"r=ok {fileStr x.whole}" }
